@@ -28,6 +28,120 @@ fn alphabet() -> Vec<Action> {
     a
 }
 
+/// More distinct type tables on one connection than a 16-bit handle can number: one statement of
+/// five integer parameters, n executions each binding a table never sent before (tables are the
+/// base-12 digits of the execution number over six integer codes x signedness), a reuse after every
+/// 1000th, and at the end the first tables bound again, each followed by a reuse.
+struct DistinctTables {
+    ns: Vec<usize>,
+}
+const TABLE_TYPES: [u8; 6] = [0x01, 0x02, 0x03, 0x08, 0x09, 0x0d];
+impl DistinctTables {
+    fn width(ty: u8) -> usize {
+        match ty {
+            0x01 => 1,
+            0x02 | 0x0d => 2,
+            0x03 | 0x09 => 4,
+            _ => 8,
+        }
+    }
+    fn table(k: usize) -> Vec<(u8, bool)> {
+        crate::engine::digits(k as u64, &[12; 5]).iter().map(|d| (TABLE_TYPES[(*d / 2) as usize], d % 2 == 1)).collect()
+    }
+    fn exec(k: usize, step: usize, bind: bool) -> Vec<u8> {
+        use crate::refwire::*;
+        let ps: Vec<ExecParam> = Self::table(k)
+            .iter()
+            .enumerate()
+            .map(|(i, (ty, u))| ExecParam { ty: *ty, unsigned: *u, wire: Some((0..Self::width(*ty)).map(|b| (0x81 + step * 7 + i * 13 + b * 3) as u8).collect()), long: false })
+            .collect();
+        cmd_execute(1, 0, 1, &exec_block(&ps, bind))
+    }
+}
+impl Family for DistinctTables {
+    fn name(&self) -> String {
+        "more-distinct-type-tables-than-a-16-bit-handle".into()
+    }
+    fn len(&self) -> u64 {
+        self.ns.len() as u64
+    }
+    fn run(&self, idx: u64, st: &mut Stats) -> Result<(), Violation> {
+        use crate::refwire::*;
+        let n = self.ns[idx as usize];
+        st.nontrivial += 1;
+        st.bump("distinct_type_tables");
+        let mut payloads = vec![with_byte(COM_STMT_PREPARE, b"id=1 p=5")];
+        let mut step = 0usize;
+        for k in 0..n {
+            payloads.push(Self::exec(k, step, true));
+            step += 1;
+            if k % 1000 == 999 {
+                payloads.push(Self::exec(k, step, false));
+                step += 1;
+            }
+        }
+        for k in [0usize, 1, 2, n - 1, 65_535 % n, 3] {
+            payloads.push(Self::exec(k, step, true));
+            payloads.push(Self::exec(k, step + 1, false));
+            step += 2;
+        }
+        run_payloads(&payloads, &[], st).map(|_| ()).map_err(|mut v| {
+            v.msg = format!("{} distinct type tables bound by one statement: {}", n, v.msg);
+            v
+        })
+    }
+    fn describe(&self, idx: u64) -> serde_json::Value {
+        json!({"distinct_type_tables": self.ns[idx as usize], "parameters": 5})
+    }
+}
+
+/// Every number k of prepare/close cycles of other ids between an early CLOSE of one id and its
+/// late re-PREPARE (k = 0..max): the re-prepared statement and a neighbour bound in between must
+/// each keep their own table. For slot generations, free lists and handle caches whose counters
+/// wrap at some k.
+pub struct CycleCounts {
+    pub max_k: usize,
+}
+impl Family for CycleCounts {
+    fn name(&self) -> String {
+        "every-number-of-prepare-close-cycles-between-close-and-re-prepare".into()
+    }
+    fn len(&self) -> u64 {
+        2 * (self.max_k as u64 + 1)
+    }
+    fn run(&self, idx: u64, st: &mut Stats) -> Result<(), Violation> {
+        let k = (idx / 2) as usize;
+        let execute_in_cycles = idx % 2 == 1;
+        st.nontrivial += 1;
+        st.bump("cycle_counts");
+        let ex = |id: u32, bind: Bind| Action::Exec { id, bind, null_first: false, shim_ignores: 0 };
+        let mut h = vec![Action::Prepare { id: 8, n: 2, ok: true }, ex(8, Bind::D), Action::Close { id: 8 }];
+        for i in 0..k {
+            let id = 20 + (i % 5) as u32;
+            h.push(Action::Prepare { id, n: 2, ok: true });
+            if execute_in_cycles {
+                h.push(ex(id, Bind::A));
+            }
+            h.push(Action::Close { id });
+        }
+        h.push(Action::Prepare { id: 1, n: 2, ok: true });
+        h.push(ex(1, Bind::B));
+        h.push(Action::Prepare { id: 8, n: 2, ok: true });
+        h.push(ex(8, Bind::C));
+        h.push(ex(1, Bind::Reuse));
+        h.push(ex(8, Bind::Reuse));
+        h.push(Action::Close { id: 1 });
+        h.push(ex(8, Bind::Reuse));
+        run_history(&h, st).map(|_| ()).map_err(|mut v| {
+            v.msg = format!("{} prepare{}/close cycles between CLOSE 8 and its re-PREPARE: {}", k, if execute_in_cycles { "/execute" } else { "" }, v.msg);
+            v
+        })
+    }
+    fn describe(&self, idx: u64) -> serde_json::Value {
+        json!({"cycles_between_close_and_re_prepare": idx / 2, "cycles_execute": idx % 2 == 1})
+    }
+}
+
 pub fn build(quick: bool) -> Check {
     let alpha = alphabet();
     let prefix = vec![Action::Prepare { id: 1, n: 2, ok: true }, Action::Prepare { id: 2, n: 2, ok: true }];
@@ -62,16 +176,18 @@ pub fn build(quick: bool) -> Check {
     }));
     families.push(Box::new(Histories { label: "bind-reuse".into(), hists: scale_types() }));
     families.push(Box::new(Histories { label: "bind-reuse-counter-wraps".into(), hists: wraps_types(quick) }));
+    families.push(Box::new(DistinctTables { ns: if quick { vec![300, 65_540] } else { vec![300, 65_535, 65_536, 65_540, 131_080, 200_000] } }));
+    families.push(Box::new(CycleCounts { max_k: if quick { 600 } else { 1300 } }));
     families.push(Box::new(super::soak::Soak { label: "executions-and-churn", lens: super::soak::lens(quick), mixes: vec![super::soak::Mix::Executions, super::soak::Mix::Churn, super::soak::Mix::Even], opts: super::soak::opts_all(), big: vec![] }));
     Check {
         id: "C16",
         level: "model_checking",
-        rule: format!("two prepared statements of 2 parameters; histories over {} actions: EXECUTE(id 1|2, reuse | bind LONG | TINY UNSIGNED | VAR_STRING | BIGINT UNSIGNED | LONG UNSIGNED (same type code, other signedness; values have the top bit set) | MYSQL_TYPE_NULL, first parameter NULL or not), executions whose parameters the shim does not look at or of which it reads only the first, long data pending for the second parameter, CLOSE, re-PREPARE. Values are position- and step-dependent so that decoding with another statement's or an older type table, or from a shifted offset, gives a different value. Full tree to depth {} (thorough: depth 6 over a 17-action core) plus BFS over model states with two witnesses. Plus 4..300 statements each with its own table, all reused afterwards, and 4 statements under 160..3000 mixed executions. Long scripted sessions: 130..4099 (thorough: up to 131101) ordinary commands of every kind on one connection in up to six mixes (even, prepare/close churn with growing ids, executions, long-data chunks, unanswered commands, text and library-answered commands) under several client/transport behaviours (pipelined, request ids advancing by 7, lock-step, 1..4093-byte reads, 7/11-byte writes), generated by a fixed rule, kept valid with the registry model and judged on the complete trace (callbacks with arguments, result, strict decode of every reply with its sequence ids). Oracle: types and values seen by the shim equal the model's (last table bound for that statement).", alpha.len(), if quick {4} else {5}),
+        rule: format!("two prepared statements of 2 parameters; histories over {} actions: EXECUTE(id 1|2, reuse | bind LONG | TINY UNSIGNED | VAR_STRING | BIGINT UNSIGNED | LONG UNSIGNED (same type code, other signedness; values have the top bit set) | MYSQL_TYPE_NULL, first parameter NULL or not), executions whose parameters the shim does not look at or of which it reads only the first, long data pending for the second parameter, CLOSE, re-PREPARE; 65540 (thorough: 200000) distinct type tables bound by one statement; every number k <= 600 (1300) of prepare/close cycles of other ids between a CLOSE and the re-PREPARE of the same id; 65536+ reuses / rebinds of one statement. Values are position- and step-dependent so that decoding with another statement's or an older type table, or from a shifted offset, gives a different value. Full tree to depth {} (thorough: depth 6 over a 17-action core) plus BFS over model states with two witnesses. Plus 4..300 statements each with its own table, all reused afterwards, and 4 statements under 160..3000 mixed executions. Long scripted sessions: 130..4099 (thorough: up to 131101) ordinary commands of every kind on one connection in up to six mixes (even, prepare/close churn with growing ids, executions, long-data chunks, unanswered commands, text and library-answered commands) under several client/transport behaviours (pipelined, request ids advancing by 7, lock-step, 1..4093-byte reads, 7/11-byte writes), generated by a fixed rule, kept valid with the registry model and judged on the complete trace (callbacks with arguments, result, strict decode of every reply with its sequence ids). Oracle: types and values seen by the shim equal the model's (last table bound for that statement).", alpha.len(), if quick {4} else {5}),
         assumptions: vec!["reusing types when none were ever bound ends the history (protocol violation by the client)".into()],
         bounds: json!({"tree_depth": if quick {4} else {5}, "core_tree_depth": if quick {0} else {6}, "alphabet": alpha.len()}),
         exhaustive: true,
         caps_hit: vec![],
         families,
-        required: vec!["soak_sessions", "reuse_after_bind", "re_prepare", "bfs_states", "long_histories"],
+        required: vec!["soak_sessions", "distinct_type_tables", "cycle_counts", "reuse_after_bind", "re_prepare", "bfs_states", "long_histories"],
     }
 }
